@@ -316,6 +316,93 @@ theorem dispatchDb_confined (cfg : Cfg) (s : State) (n v : String) (e : Gen.Serv
         simp [hp, scopedInfo, ConfinedReply]
       · simp [ConfinedReply]
 
+/-! ## the persistence layer -/
+
+/-- everything but the three copies of the key map, the durable registry and the fault counter -/
+def SameShape (s s' : State) : Prop :=
+  s'.opened = s.opened ∧ s'.registry = s.registry ∧ s'.stored = s.stored ∧ s'.primaryRO = s.primaryRO
+
+theorem metaPut_fields (s : State) :
+    (metaPut s).1.bound = s.bound ∧ (metaPut s).1.extBound = s.extBound ∧
+    (metaPut s).1.extRegistry = s.extRegistry ∧
+    ((metaPut s).1.durableBound = s.durableBound ∨ (metaPut s).1.durableBound = s.extBound) ∧
+    ((metaPut s).2 = true → (metaPut s).1.durableBound = s.extBound ∧ (metaPut s).1.durableRegistry = s.extRegistry) ∧
+    SameShape s (metaPut s).1 := by
+  unfold metaPut SameShape
+  split <;> simp
+
+theorem persistKeys_fields (s : State) :
+    (persistKeys s).1.bound = s.bound ∧
+    ((persistKeys s).1.extBound = s.extBound ∨ (persistKeys s).1.extBound = s.bound) ∧
+    ((persistKeys s).1.durableBound = s.durableBound ∨ (persistKeys s).1.durableBound = s.bound) ∧
+    ((persistKeys s).2 = true → (persistKeys s).1.durableBound = s.bound ∧ (persistKeys s).1.extBound = s.bound) ∧
+    SameShape s (persistKeys s).1 := by
+  unfold persistKeys
+  split
+  · simp [SameShape]
+  · have h := metaPut_fields { s with extBound := s.bound }
+    obtain ⟨h1, h2, _, h4, h5, h6⟩ := h
+    refine ⟨h1, .inr h2, ?_, ?_, h6⟩
+    · rcases h4 with h4 | h4
+      · exact .inl h4
+      · exact .inr h4
+    · intro hok
+      exact ⟨(h5 hok).1, h2⟩
+
+theorem persistKeys_ro (s : State) (h : s.primaryRO = true) : persistKeys s = (s, false) := by
+  unfold persistKeys; simp [h]
+
+theorem persistRegistry_ro (s : State) (h : s.primaryRO = true) : persistRegistry s = (s, false) := by
+  unfold persistRegistry; simp [h]
+
+theorem persistRegistry_fields (s : State) :
+    (persistRegistry s).1.bound = s.bound ∧ (persistRegistry s).1.extBound = s.extBound ∧
+    ((persistRegistry s).1.durableBound = s.durableBound ∨ (persistRegistry s).1.durableBound = s.extBound) ∧
+    ((persistRegistry s).2 = true → (persistRegistry s).1.durableBound = s.extBound) ∧
+    SameShape s (persistRegistry s).1 := by
+  unfold persistRegistry
+  split
+  · simp [SameShape]
+  · obtain ⟨h1, h2, _, h4, h5, h6⟩ := metaPut_fields { s with extRegistry := s.registry }
+    exact ⟨h1, h2, h4, fun hok => (h5 hok).1, h6⟩
+
+/-- the map `store_api_key` tries to install -/
+def storeTarget (s : State) (name : String) (v : Option String) : List (String × String) :=
+  match v with
+  | some k => setKey s.bound name k
+  | none => eraseKey s.bound name
+
+theorem storeApiKey_fields (s : State) (name : String) (v : Option String) :
+    ((storeApiKey s name v).2 = true →
+        (storeApiKey s name v).1.bound = storeTarget s name v ∧
+        (storeApiKey s name v).1.durableBound = storeTarget s name v ∧
+        (storeApiKey s name v).1.extBound = storeTarget s name v) ∧
+    ((storeApiKey s name v).2 = false → (storeApiKey s name v).1.bound = s.bound) ∧
+    ((storeApiKey s name v).1.extBound = s.extBound ∨ (storeApiKey s name v).1.extBound = storeTarget s name v) ∧
+    ((storeApiKey s name v).1.durableBound = s.durableBound ∨
+        (storeApiKey s name v).1.durableBound = storeTarget s name v) ∧
+    SameShape s (storeApiKey s name v).1 := by
+  unfold storeApiKey
+  have hp := persistKeys_fields { s with bound := storeTarget s name v }
+  simp only [storeTarget] at hp ⊢
+  obtain ⟨h1, h2, h3, h4, h5⟩ := hp
+  split
+  · rename_i s' heq
+    rw [heq] at h1 h2 h3 h4 h5
+    simp only at h1 h2 h3 h4 h5
+    have := h4 rfl
+    exact ⟨fun _ => ⟨h1, this.1, this.2⟩, fun h => by cases h, h2, h3, h5⟩
+  · rename_i s' heq
+    rw [heq] at h1 h2 h3 h4 h5
+    simp only at h1 h2 h3 h4 h5
+    exact ⟨fun h => by cases h, fun _ => rfl, h2, h3, h5⟩
+
+theorem storeApiKey_ro (s : State) (name : String) (v : Option String) (h : s.primaryRO = true) :
+    (storeApiKey s name v).1.bound = s.bound ∧ (storeApiKey s name v).2 = false := by
+  unfold storeApiKey
+  rw [persistKeys_ro _ (by simpa using h)]
+  simp
+
 /-! ## which root handler produced a result -/
 
 theorem rpc_root_result (cfg : Cfg) (s : State) (r : Request) (res : RootResult)
